@@ -93,7 +93,8 @@ def gen_case(prng: Prng, tier: str, i: int) -> dict:
         ),
         source=prng.choice(["df", "df", "hdf5", "parquet", "fits"]),
         patch=dict(mode=mode, k=k, center_seed=prng.below(1 << 20), pid_dtype="i8", pid_scramble=False,
-                   **({"extra_pid_column": True} if (mode == "apply" and prng.chance(1, 4)) else {})),
+                   **({"extra_pid_column": True} if (mode == "apply" and prng.chance(1, 4)) else {}),
+                   **({"centers_from_catalog": True} if (mode == "apply" and prng.chance(1, 4)) else {})),
         chunksize=prng.choice([None, 3, 7, 20, 64]),
         workers=prng.choice([1, 2, 3, 4, 8]),
         use_none=prng.chance(1, 4),
